@@ -116,12 +116,17 @@ def check_state(ck, lst, rows, rng, nraw):
 def normalizer_checks(ck, rng):
     norm_sets = [ConstantNormalizer(1.7), DensityNormalizer(0.8, -4.0 / 3), InhomogeneityNormalizer(0.9, 0.3, -1.5),
                  GeneralNormalizer(1.1, 0.4, 2.0 / 3, 1.0), GeneralNormalizer(0.7, 0.2, -5.0 / 3, -1.0), None]
+    # normalisers that share an EXPONENT but not the constants (and exponents that differ by exactly one: the derivative of
+    # one has the exponent of the other): anything remembered per exponent within one evaluation of the list is exposed
+    twins = [InhomogeneityNormalizer(0.9, 0.3, -1.5), InhomogeneityNormalizer(1.3, 0.55, -1.5), GeneralNormalizer(1.1, 0.4, 2.0 / 3, 1.0),
+             GeneralNormalizer(0.6, 0.35, 1.0 / 3, 1.0), InhomogeneityNormalizer(1.0, 0.45, -0.5), GeneralNormalizer(0.8, 0.25, 2.0 / 3, -1.5),
+             DensityNormalizer(0.8, -4.0 / 3), DensityNormalizer(1.4, -4.0 / 3), DensityNormalizer(0.5, -1.0 / 3)]
     from ciderpress.dft import settings as S
     for mode in ("npa", "nst", "np", "ns"):
         nsl = 3 if mode in ("npa", "nst") else 2
         for nspin in (1, 2):
             for trial in range(3):
-                extra = [norm_sets[k] for k in rng.permutation(len(norm_sets))[:4]]
+                extra = [norm_sets[k] for k in rng.permutation(len(norm_sets))[:4]] if trial else [twins[k] for k in rng.permutation(len(twins))]
                 nl = FeatNormalizerList([None] * nsl + extra, slmode=mode)
                 nf = nl.nfeat
                 m = 7
